@@ -213,6 +213,10 @@ pub fn buffered_input_from_reader_with_limit<'a, R: Read + 'a>(
     // Auto-detect encoding (BOM or guess), decode to UTF-8 on the fly.
     let decoder = DecodeReaderBytesBuilder::new()
         .encoding(None) // None = sniff BOM / use heuristics; set Some(encoding) to force
+        // UTF-8 (with or without BOM) goes through untouched so that `ChunkedChars` validates
+        // it; transcoding UTF-8 to UTF-8 would silently replace malformed input by U+FFFD.
+        .utf8_passthru(true)
+        .strip_bom(true)
         .build(reader);
 
     let error: ReaderInputError = Rc::new(RefCell::new(None));
